@@ -1,2 +1,3 @@
 pub mod cfgstate;
 pub mod c04;
+pub mod c12;
